@@ -665,4 +665,19 @@ theorem C18_wif_canonical (env : Env) (laws : CodecLaws env) (ke : KeyEnv) (net 
               unfold parseWif; simp only [hd, hp, hpre, if_false, h33, h32, if_true]; exact h
           · cases h
 
+/-! ## non-vacuity (evaluated in the kernel on a toy codec and curve) -/
+
+def toyKe : KeyEnv where
+  p := 23
+  order := 1000
+  mulG _ := (1, 1)
+  pointsForX _ := none
+  containsPoint _ _ := true
+  hmacSha512 _ m := m
+  electrumStretch _ := []
+
+/-- non-vacuity of `C18_wif_canonical`: a compressed WIF carrying the exponent 5 is accepted on BTC -/
+example : ∃ o, parseWif toyEnv toyKe net_btc (toyEnv.b58cEnc ([128] ++ beBytes 5 32 ++ [1])) = .ok (some o) := ⟨_, rfl⟩
+example : parseWif toyEnv toyKe net_btc (toyEnv.b58cEnc ([128] ++ beBytes 0 32 ++ [1])) = .ok none := rfl
+example : parseWif toyEnv toyKe net_btc (toyEnv.b58cEnc ([128] ++ beBytes 5 32 ++ [7])) = .ok none := rfl
 end Pycoin.Addr
